@@ -72,8 +72,11 @@ class GeomThrow(Stage):
         keep = u.copy()
         g = self.obj
         g.throw(u)
-        arrs = [g.thetaTrSubV, g.costhetaTrSubV, g.phiTrSubV, g.phiS, g.losPathLen, g.thetaS, g.costhetaNSubV,
-                g.costhetaTrSubN, g.betaTrSubN, g.latS, g.longS, g.elevAngVSubN, g.aziAngVSubN, g.event_mask]
+        # per-throw arrays of the object: internal names, so whichever of them this version of the class has
+        arrs = [getattr(g, a) for a in ("thetaTrSubV", "costhetaTrSubV", "phiTrSubV", "phiS", "losPathLen", "thetaS", "costhetaNSubV",
+                                        "costhetaTrSubN", "betaTrSubN", "latS", "longS", "elevAngVSubN", "aziAngVSubN")
+                if isinstance(getattr(g, a, None), np.ndarray) and np.shape(getattr(g, a))[:1] == (len(idx),)]
+        arrs.append(g.event_mask)
         m = np.asarray(g.event_mask)
         arrs += [_expand(m, g.beta_rad()), _expand(m, g.thetas()), _expand(m, g.pathLens())]
         s = np.full(int(m.sum()), 25.0)
